@@ -288,7 +288,8 @@ pub fn sweep_scalars() -> Outcome {
         }
     };
     cfg.user = pick(&["u9", "üser 9"]);
-    cfg.password = pick(&["pw9", ""]);
+    // the empty password is a value of its own (only user and dbname treat "" as unset)
+    cfg.password = [None, Some("pw9".to_string()), Some(String::new())][choose_free(3)].clone();
     cfg.dbname = pick(&["db9", "dätabase"]);
     cfg.options = pick(&["-c x=9", ""]);
     cfg.application_name = pick(&["app9", ""]);
